@@ -24,7 +24,8 @@ type vMapProxy struct {
 	has   map[string]bool
 	calls int64
 	delay time.Duration
-	mode     map[string]string // reported-size behaviour per hash: "" = the stated size, "u", "m", "b"
+	osize    map[string]int64  // true size of the object the back end holds under the hash
+	mode     map[string]string // "" = it reports the true size, "u" = it cannot tell sizes (v2 object stores)
 	maxProxy int64
 }
 
@@ -42,20 +43,16 @@ func (p *vMapProxy) Contains(ctx context.Context, kind cache.EntryKind, hash str
 	p.mu.Lock()
 	h := p.has[hash]
 	m := p.mode[hash]
+	osz := p.osize[hash]
 	p.mu.Unlock()
 	atomic.AddInt64(&p.calls, 1)
 	if !h {
 		return false, -1
 	}
-	switch m {
-	case "u": // a back end that cannot tell the size (v2 object stores)
+	if m == "u" {
 		return true, -1
-	case "m": // the object it holds has another size than the one stated in the request
-		return true, size + 1
-	case "b": // the object it holds is larger than max_proxy_blob_size
-		return true, p.maxProxy + 1
 	}
-	return true, size
+	return true, osz
 }
 
 func TestVerifFindMissing(t *testing.T) {
@@ -69,15 +66,17 @@ func TestVerifFindMissing(t *testing.T) {
 		rng := vNewRand(fmt.Sprintf("fm-%d", ci))
 		dir := vTempDir(t)
 		defer os.RemoveAll(dir)
-		withProxy := rng.Pct(60)
+		// case 0 is directed: one digest whose hash a size-less back end holds with another size
+		directed := ci == 0
+		withProxy := rng.Pct(60) || directed
 		maxProxy := int64(1 << 40)
-		if withProxy && rng.Pct(50) {
+		if withProxy && rng.Pct(50) && !directed {
 			maxProxy = int64(500 + rng.Intn(2000))
 		}
 		var px *vMapProxy
 		opts := []Option{}
 		if withProxy {
-			px = &vMapProxy{has: map[string]bool{}, mode: map[string]string{}, maxProxy: maxProxy}
+			px = &vMapProxy{has: map[string]bool{}, mode: map[string]string{}, osize: map[string]int64{}, maxProxy: maxProxy}
 			if rng.Pct(40) {
 				px.delay = time.Duration(1+rng.Intn(15)) * time.Millisecond // a back end that answers after the batch loop is done
 			}
@@ -85,17 +84,21 @@ func TestVerifFindMissing(t *testing.T) {
 		}
 		c := vNewDisk(t, dir, 1<<30, opts...)
 		n := []int{0, 1, 5, 19, 20, 21, 39, 40, 41, 60, 100 + rng.Intn(200)}[rng.Intn(11)]
+		if directed {
+			n = 1
+		}
 		type item struct {
 			tok   string
 			dg    *pb.Digest
 			local int
 			prox  bool
 			pmode string
+			ptrue int64 // true size of the back end's object
 		}
 		var items []item
 		stored := map[string]int64{} // hash -> logical size of the local entry
-		var want []string
-		anyMissing := false
+		var want, wantSizeless []string
+		anyMissing, anyMissingSizeless := false, false
 		// per-case profile: which kinds of digests occur at all (a list whose only non-present
 		// digests are of one kind exercises the "nothing missing" shortcuts)
 		profile := []int{0, 1, 2, 3, 4}
@@ -114,6 +117,13 @@ func TestVerifFindMissing(t *testing.T) {
 			localTail = 1 + rng.Intn(25)
 		}
 		for i := 0; i < n; i++ {
+			if directed {
+				data := rng.Bytes(1 + rng.Intn(3000))
+				d := &pb.Digest{Hash: vHash(data), SizeBytes: int64(len(data))}
+				px.has[d.Hash], px.mode[d.Hash], px.osize[d.Hash] = true, "u", d.SizeBytes+1
+				items = append(items, item{tok: "h0", dg: d, prox: true, pmode: "u", ptrue: d.SizeBytes + 1})
+				continue
+			}
 			if i >= n-localTail {
 				data := rng.Bytes(1 + rng.Intn(300))
 				d := &pb.Digest{Hash: vHash(data), SizeBytes: int64(len(data))}
@@ -145,7 +155,11 @@ func TestVerifFindMissing(t *testing.T) {
 				items = append(items, item{tok: "E", dg: &pb.Digest{Hash: emptySha256, SizeBytes: int64(1 + rng.Intn(9))}})
 				continue
 			}
-			data := rng.Bytes(1 + rng.Intn(3000))
+			dn := 1 + rng.Intn(3000)
+			if maxProxy < 1<<30 && rng.Pct(15) { // sizes at the max_proxy_blob_size boundary
+				dn = int(maxProxy) + []int{-1, 0, 0, 1}[rng.Intn(4)]
+			}
+			data := rng.Bytes(dn)
 			d := &pb.Digest{Hash: vHash(data), SizeBytes: int64(len(data))}
 			it := item{tok: tok, dg: d}
 			switch profile[rng.Intn(len(profile))] {
@@ -164,19 +178,23 @@ func TestVerifFindMissing(t *testing.T) {
 				stored[d.Hash] = d.SizeBytes
 			case 2: // only in the back end
 				it.prox = true
+				it.ptrue = d.SizeBytes // the object the back end holds is the blob itself ...
 				switch rng.Intn(8) {
 				case 0:
-					it.pmode = "u"
+					it.pmode = "u" // ... but the back end cannot tell its size
 				case 1:
-					it.pmode = "m"
+					it.ptrue = d.SizeBytes + 1 // ... or it holds something of another size under this hash
 				case 2:
-					it.pmode = "b"
+					it.ptrue = maxProxy + 1 // ... or something larger than max_proxy_blob_size
+				case 3:
+					it.pmode, it.ptrue = "u", d.SizeBytes+1 // another size, and it cannot tell
 				}
 			default: // absent everywhere
 			}
 			if it.prox && px != nil {
 				px.has[d.Hash] = true
 				px.mode[d.Hash] = it.pmode
+				px.osize[d.Hash] = it.ptrue
 			}
 			items = append(items, it)
 		}
@@ -184,11 +202,11 @@ func TestVerifFindMissing(t *testing.T) {
 		var spec []string
 		for _, it := range items {
 			req = append(req, &pb.Digest{Hash: it.dg.Hash, SizeBytes: it.dg.SizeBytes})
-			ptok := "0"
+			ptok := "-" // what the back end answers: absent, or the size it reports (-1: cannot tell)
 			if it.prox && px != nil {
-				ptok = "1"
-				if it.pmode != "" {
-					ptok = it.pmode
+				ptok = fmt.Sprint(it.ptrue)
+				if it.pmode == "u" {
+					ptok = "-1"
 				}
 			}
 			st, isStored := stored[it.dg.Hash]
@@ -196,13 +214,21 @@ func TestVerifFindMissing(t *testing.T) {
 				st = -1
 			}
 			spec = append(spec, fmt.Sprintf("%s:%d:%d:%s", it.tok, it.dg.SizeBytes, st, ptok))
-			// the back end vouches for a digest only with a size that is within max_proxy_blob_size and
-			// does not contradict the stated one ("m": another size, "b": larger than the limit)
-			vouched := px != nil && it.prox && it.dg.SizeBytes <= maxProxy && it.pmode != "m" && it.pmode != "b"
-			missing := !(it.tok == "E" && it.dg.SizeBytes == 0) && !(isStored && st == it.dg.SizeBytes) && !vouched
-			if missing {
+			// the property: the back end makes a digest present only if it holds an object of exactly the
+			// stated size, within max_proxy_blob_size.  A back end that cannot tell sizes leaves the
+			// cache unable to see a wrong stated size (known finding F31): `sizeless` is the answer that
+			// takes such a back end's word.
+			local := (it.tok == "E" && it.dg.SizeBytes == 0) || (isStored && st == it.dg.SizeBytes)
+			held := px != nil && it.prox && it.dg.SizeBytes <= maxProxy
+			vouched := held && it.ptrue == it.dg.SizeBytes
+			vouchedSizeless := held && (it.ptrue == it.dg.SizeBytes || it.pmode == "u")
+			if !local && !vouched {
 				want = append(want, it.tok)
 				anyMissing = true
+			}
+			if !local && !vouchedSizeless {
+				wantSizeless = append(wantSizeless, it.tok)
+				anyMissingSizeless = true
 			}
 		}
 		tokOf := map[string]string{emptySha256: "E"}
@@ -253,17 +279,25 @@ func TestVerifFindMissing(t *testing.T) {
 		cs.Count(fmt.Sprintf("len=%d", n))
 		cs.Distinct(sp)
 		if err != nil || strings.Join(gotToks, ",") != strings.Join(want, ",") {
-			cs.Violation("C10", "fm.wrong-answer", fmt.Sprintf("FindMissingCasBlobs returned %v (err %v), want %v", gotToks, err, want), sp)
+			if err == nil && strings.Join(gotToks, ",") == strings.Join(wantSizeless, ",") {
+				cs.Violation("C10", "fm.sizeless-backend-wrong-size", fmt.Sprintf("FindMissingCasBlobs returned %v, want %v: a digest stating another size than the object a size-less back end holds under that hash is reported present", gotToks, want), sp)
+			} else {
+				cs.Violation("C10", "fm.wrong-answer", fmt.Sprintf("FindMissingCasBlobs returned %v (err %v), want %v", gotToks, err, want), sp)
+			}
 		}
 		if (ff == "miss") != anyMissing {
-			cs.Violation("*", "fm.failfast", fmt.Sprintf("fail-fast presence check answered %s but missing=%v", ff, anyMissing), sp)
+			if (ff == "miss") == anyMissingSizeless {
+				cs.Violation("*", "fm.failfast.sizeless-backend-wrong-size", fmt.Sprintf("fail-fast presence check answered %s although a digest states another size than the object a size-less back end holds", ff), sp)
+			} else {
+				cs.Violation("*", "fm.failfast", fmt.Sprintf("fail-fast presence check answered %s but missing=%v", ff, anyMissing), sp)
+			}
 		}
 		if ci < 2 {
 			cs.Sample(cs.CaseOps())
 		}
 		_ = hookMu
 	})
-	rec.Set("rule", "request lists of length 0..300 crossing the batch size 20, partition into local / local-with-other-size / back-end-only (reporting the stated size, no size, another size, a size above max_proxy_blob_size) / absent / empty digest / duplicates, with and without back end and max_proxy_blob_size, concurrent unrelated puts; plain and fail-fast call")
+	rec.Set("rule", "request lists of length 0..300 crossing the batch size 20, partition into local / local-with-other-size / back-end-only (an object of the stated size, of another size, above max_proxy_blob_size; the back end reporting its size or not) / absent / empty digest / duplicates, with and without back end and max_proxy_blob_size, concurrent unrelated puts; plain and fail-fast call")
 }
 
 func b2i(b bool) int {
@@ -313,5 +347,146 @@ func TestVerifFailFastRace(t *testing.T) {
 	if falseHits > 0 {
 		rec.Violation("C06", "fm.failfast-race", fmt.Sprintf("fail-fast presence check reported success for a blob absent everywhere in %d of %d rounds (cancellation and completion both ready at the final select)", falseHits, rounds),
 			"schedule: hold findMissingCasBlobsInternal at findmissing.beforeFinalSelect until the last back-end worker has answered 'not found'")
+	}
+}
+
+// vParkCtx is a request context whose Done() is nil (never cancelled).  context.WithCancel(child)
+// consults the parent's Done() once when the child is made and once more inside the child's
+// cancel(), after the child's own done channel was closed: the second call parks the goroutine that
+// cancels (a back-end worker reporting a miss) exactly between "requester can wake up" and "cancel
+// returns".
+type vParkCtx struct {
+	context.Context
+	calls   int32
+	entered chan struct{}
+	release chan struct{}
+}
+
+func (c *vParkCtx) Done() <-chan struct{} {
+	if atomic.AddInt32(&c.calls, 1) >= 2 {
+		select {
+		case c.entered <- struct{}{}:
+		default:
+		}
+		<-c.release
+	}
+	return nil
+}
+
+// C06 / C07: the moment the fail-fast walk is cancelled by a back-end miss, the requester must
+// already be able to tell that this is a miss (not a cancelled request), whatever the worker does
+// next.
+func TestVerifFailFastParkedWorker(t *testing.T) {
+	rec := vNewRecorder(t, "failfastpark")
+	defer rec.Close(t)
+	rec.Set("rule", "the back-end worker that reports the miss is parked inside cancel(), after the walk's context was closed: the dependency check must answer 'missing', with 1, 5 and 25 digests of which one is absent everywhere")
+	for _, n := range []int{1, 5, 25} {
+		rec.Case()
+		dir := vTempDir(t)
+		px := &vMapProxy{has: map[string]bool{}, mode: map[string]string{}, osize: map[string]int64{}, maxProxy: 1 << 40}
+		c := vNewDisk(t, dir, 1<<30, WithProxyBackend(px))
+		var blobs []*pb.Digest
+		for i := 0; i < n; i++ {
+			b := []byte(fmt.Sprintf("park-%d-%d", n, i))
+			d := &pb.Digest{Hash: vHash(b), SizeBytes: int64(len(b))}
+			if i != n/2 { // all but one are held by the back end
+				px.has[d.Hash], px.osize[d.Hash] = true, d.SizeBytes
+			}
+			blobs = append(blobs, d)
+		}
+		ctx := &vParkCtx{Context: context.Background(), entered: make(chan struct{}, 1), release: make(chan struct{})}
+		res := make(chan error, 1)
+		go func() { res <- c.findMissingCasBlobsInternal(ctx, blobs, true) }()
+		var err error
+		select {
+		case err = <-res:
+		case <-time.After(10 * time.Second):
+			err = fmt.Errorf("no answer within 10 s")
+		}
+		close(ctx.release)
+		out := "missing"
+		if err == nil {
+			out = "all-present"
+		} else if !errors.Is(err, errMissingBlob) {
+			out = "error: " + err.Error()
+		}
+		rec.Note(fmt.Sprintf("n=%d -> %s", n, out))
+		rec.Count("answer." + strings.SplitN(out, ":", 2)[0])
+		rec.Distinct(fmt.Sprint(n))
+		if out != "missing" {
+			rec.Violation("C06,C07", "fm.failfast-parked", fmt.Sprintf("%d digests, one absent everywhere, the worker that found it parked inside cancel(): the dependency check answered %q, want a miss", n, out), map[string]int{"digests": n})
+		}
+		_ = os.RemoveAll(dir)
+	}
+}
+
+type vBlockingProxy struct {
+	release chan struct{}
+	calls   int64
+}
+
+func (p *vBlockingProxy) Put(ctx context.Context, kind cache.EntryKind, hash string, l int64, s int64, rc io.ReadCloser) {
+	_, _ = io.Copy(io.Discard, rc)
+	_ = rc.Close()
+}
+func (p *vBlockingProxy) Get(ctx context.Context, kind cache.EntryKind, hash string, size int64) (io.ReadCloser, int64, error) {
+	return nil, -1, nil
+}
+func (p *vBlockingProxy) Contains(ctx context.Context, kind cache.EntryKind, hash string, size int64) (bool, int64) {
+	atomic.AddInt64(&p.calls, 1)
+	<-p.release
+	return true, size
+}
+
+// C10 under load on the back end: more back-end checks outstanding than the worker pool and its
+// queue hold (the back end stalls).  Requests must wait, not give up: once the back end answers,
+// every digest it holds is reported present.
+func TestVerifFindMissingStalledBackend(t *testing.T) {
+	rec := vNewRecorder(t, "fmqueue")
+	defer rec.Close(t)
+	rec.Set("rule", "10 concurrent FindMissingBlobs calls of 300 digests each, all held by a back end that answers only after the worker pool (512) and its queue (2048) are full")
+	rec.Case()
+	dir := vTempDir(t)
+	defer os.RemoveAll(dir)
+	px := &vBlockingProxy{release: make(chan struct{})}
+	c := vNewDisk(t, dir, 1<<30, WithProxyBackend(px))
+	const reqs, per = 10, 300
+	var wg sync.WaitGroup
+	missing := make([]int, reqs)
+	errs := make([]error, reqs)
+	for r := 0; r < reqs; r++ {
+		wg.Add(1)
+		go func(r int) {
+			defer wg.Done()
+			var ds []*pb.Digest
+			for i := 0; i < per; i++ {
+				ds = append(ds, &pb.Digest{Hash: vHash([]byte(fmt.Sprintf("fmqueue-%d-%d", r, i))), SizeBytes: int64(10 + i)})
+			}
+			got, err := c.FindMissingCasBlobs(context.Background(), ds)
+			missing[r], errs[r] = len(got), err
+		}(r)
+	}
+	// until the pool is busy and the queue is full (or nothing moves any more)
+	for i := 0; i < 400; i++ {
+		if atomic.LoadInt64(&px.calls) >= 512 && len(c.containsQueue) == cap(c.containsQueue) { // numWorkers of spawnContainsQueueWorkers
+			break
+		}
+		time.Sleep(5 * time.Millisecond)
+	}
+	rec.Note(fmt.Sprintf("stalled with %d checks at the back end, %d of %d queued", atomic.LoadInt64(&px.calls), len(c.containsQueue), cap(c.containsQueue)))
+	time.Sleep(50 * time.Millisecond)
+	close(px.release)
+	wg.Wait()
+	total := 0
+	for r := 0; r < reqs; r++ {
+		total += missing[r]
+		if errs[r] != nil {
+			rec.Violation("C10", "fmqueue.error", fmt.Sprintf("request %d failed: %v", r, errs[r]), nil)
+		}
+	}
+	rec.Count(fmt.Sprintf("missing=%d", total))
+	rec.Distinct("stalled")
+	if total != 0 {
+		rec.Violation("C10", "fmqueue.dropped", fmt.Sprintf("%d of %d digests that the back end holds were reported missing while the back end was slow to answer", total, reqs*per), map[string]int{"requests": reqs, "digests": per})
 	}
 }
